@@ -15,6 +15,7 @@ LEVEL_TEXT = {
     "C09": ("exploration", "Steal premise computed from the model for every generated move construction / move assignment / swap; when it holds data() must be the source's old buffer, no element event may hit the transferred elements and the source must be empty and inlined.", "§4 C09"),
     "C10": ("exploration", "Per-operation oracle: if the result fits the prior capacity then capacity()/data() are unchanged and the element registry shows zero events on the prefix; reserve/erase/clear rules; at most one allocate and one relocation per old element for calls that know their count.", "§4 C10"),
     "C11": ("exploration", "Metamorphic relation: an aliasing call must equal copy-then-call on the model, over generated (i, pos, n, state) with alias-heavy weights.", "§4 C11"),
+    "C12": ("exploration", "Exhaustive enumeration for the 8-bit size_type (every size, operation, count/range length up to and beyond the numeric maximum, three positions) plus boundary grids and rapidcheck boundary-biased cases for 16/32-bit size_types and allocators with max_size()=1000, in an assert-enabled and an NDEBUG build: length_error, no effect, allocate(n) <= max_size(), size() <= max_size(), no wrapped arithmetic (ASan).", "§4 C12"),
     "C13": ("exploration", "Differential: the same generated program runs on a non-trivial element type and on its trivially copyable twin; full observation traces (values, sizes, capacities, data() stability, allocate counts) must be identical; object canaries and ASan guard bytes outside storage.", "§4 C13"),
     "C14": ("exploration", "Growth probe on every reallocating listed call: new capacity >= required and >= 1.5x old unless saturated at max_size().", "§4 C14"),
     "C15": ("exploration", "Instrumented single-pass iterators (shared cursor) trap double dereference, skipped positions, stale copies and access at/past last; multi-pass iterators trap walking outside [first,last]; generator call log; result compared with the model.", "§4 C15"),
@@ -64,6 +65,7 @@ TECHNIQUE = {
     "C09": "stateful property testing with address/event oracles for buffer stealing",
     "C10": "stateful property testing with capacity/data stability and per-address event oracles",
     "C11": "metamorphic property testing (aliasing call == copy-then-call)",
+    "C12": "exhaustive small-domain enumeration (8-bit size_type) plus boundary-biased generated cases, model arithmetic in wide integers as oracle",
     "C13": "differential property testing (trivially copyable twin vs non-trivial type), trace comparison",
     "C14": "stateful property testing with a geometric-growth oracle",
     "C15": "property testing with instrumented single-pass / checked iterators",
@@ -72,6 +74,7 @@ TECHNIQUE = {
 ENGINES = [
     {"name": "hist", "path": "harness/hist_main.cpp + harness/interp*.{hpp,inc}", "serves_properties": ["C01", "C02", "C03", "C04", "C07", "C09", "C10", "C11", "C13", "C14", "C15"],
      "kind_free_text": "rapidcheck-generated operation programs interpreted against small_vector and a std::vector model, with probes"},
+    {"name": "lim", "path": "harness/lim_main.cpp", "serves_properties": ["C12"], "kind_free_text": "narrow size_type / small max_size() allocators, exhaustive and boundary-biased enumeration"},
     {"name": "fault", "path": "harness/hist_main.cpp (fault mode)", "serves_properties": ["C05", "C06"],
      "kind_free_text": "prefix + operation under test, every fault point enumerated"},
 ]
